@@ -247,8 +247,27 @@ class C18(Spec):
                     any((b"\\ud" + t) in doc for t in (b"8", b"9", b"a", b"b", b"c", b"d", b"e", b"f"))
             except (ValueError, IndexError):
                 return False
+        def entry_neg_zero_sign(d, params):
+            # the document is exactly the literal `-0` (plus blanks): native check_leading_zero reads the byte BEHIND the
+            # number (C05-leading-zero-overread); '.'/'e'/'E' there sends the literal down the float path (-0.0), anything
+            # else down the integer path (+0, C19-neg-zero-literal).  Entry points that copy the frame (stream decoders)
+            # and those that do not therefore differ in the SIGN OF A FLOAT ZERO only, depending on heap garbage.
+            if not d["kind"].startswith("entry-"):
+                return False
+            try:
+                doc = bytes.fromhex(d["case"][-1])
+            except (ValueError, IndexError):
+                return False
+            if doc.strip(b" \t\r\n") != b"-0":
+                return False
+            m = re.match(r"^\w+: frozen=O:([0-9a-f]+) differing=[^:]+:O:([0-9a-f]+)$", d["detail"])
+            if not m:
+                return False
+            z, nz = b"f:0000000000000000", b"f:8000000000000000"
+            a, b = bytes.fromhex(m.group(1)), bytes.fromhex(m.group(2))
+            return a != b and a.replace(nz, z) == b.replace(nz, z)
         return {"both_number_modes_panic": both_modes, "tm_map_keys_quoting_depends_on_sort": tm_keys,
-                "optdec_ignores_use_unicode_errors": optdec_urc}
+                "optdec_ignores_use_unicode_errors": optdec_urc, "entry_neg_zero_sign": entry_neg_zero_sign}
 
     # ------------------------------------------------------------------ shrinking
     def shrink_fields(self, case):
